@@ -101,7 +101,7 @@ func c15Shares(r *vk.Rng) *big.Int {
 
 func runC15(c *vk.Ctx) {
 	c.R.Rule = "cases = operation sequences on one accumulator over 2-5 names and 1-3 reward denoms: AddToAccumulator, NewPosition(+interval form), AddTo/RemoveFrom/UpdatePosition(+interval forms), SetPositionIntervalAccumulation, AddToUnclaimedRewards, ClaimRewards, DeletePosition, and invalid calls (unknown name, zero / negative / excessive share change); a third of the sequences use a fresh GetAccumulator handle per operation, a third one persistent handle, a third two long-lived handles alternately (one of them stale in its total-share field whenever the other changed shares; both refreshed before value changes and before operations that write the cached total back). After every operation total shares, every position record and every position's claimable amount are compared with an exact big.Rat ledger; failing calls must leave the store digest unchanged. distinct_nontrivial counts distinct (handle mode, operation, outcome, #denoms with non-zero claim, claim-near-integer?) tuples."
-	nSeq := c.N(4000, 600000)
+	nSeq := c.N(40000, 600000)
 	opsPer := c.N(60, 120)
 	c.Cases("sequence", nSeq, func(i int, r *vk.Rng) {
 		st := vk.NewSliceStore()
